@@ -130,16 +130,19 @@ Theorem C19_import : forall t n k, guard_import t n k = decide (pre_import t n k
 Proof. exact import_decides. Qed.
 Print Assumptions C19_import.
 
-(* ---- mode selection through the generated tt_dimscheck (A-42) ---- *)
-Theorem C19_dimscheck_refuted : ~ dimscheck_stmt.
-Proof. exact dimscheck_refuted. Qed.
-Print Assumptions C19_dimscheck_refuted.
-Theorem C19_tensor_ttv_refuted : ~ tensor_ttv_stmt.
-Proof. exact tensor_ttv_refuted. Qed.
-Print Assumptions C19_tensor_ttv_refuted.
-Theorem C19_tensor_ttm_refuted : ~ tensor_ttm_stmt.
-Proof. exact tensor_ttm_refuted. Qed.
-Print Assumptions C19_tensor_ttm_refuted.
+(* ---- mode selection through the generated tt_dimscheck (A-42 repaired) ---- *)
+Theorem C19_dimscheck_rejects_bad_modes : forall N M d, modes_ok N d = false -> tt_dimscheck N M (Some d) None = Err.
+Proof. exact dimscheck_rejects_bad_modes. Qed.
+Print Assumptions C19_dimscheck_rejects_bad_modes.
+Example C19_dimscheck_ex : tt_dimscheck 2 (Some 2) (Some [1; 1]) None = Err /\ tt_dimscheck 2 None (Some [5]) None = Err
+  /\ tt_dimscheck 3 (Some 2) (Some [2; 0]) None = Ok ([0; 2], Some [1; 0]).
+Proof. repeat split; reflexivity. Qed.
+Theorem C19_tensor_ttv_rejects_bad_modes : forall s vlens d, modes_ok (ndim s) d = false -> guard_tensor_ttv s vlens (Some d) None = Err.
+Proof. exact tensor_ttv_rejects_bad_modes. Qed.
+Print Assumptions C19_tensor_ttv_rejects_bad_modes.
+Theorem C19_tensor_ttm_rejects_bad_modes : forall s ms d tr, modes_ok (ndim s) d = false -> guard_tensor_ttm s ms (Some d) None tr = Err.
+Proof. exact tensor_ttm_rejects_bad_modes. Qed.
+Print Assumptions C19_tensor_ttm_rejects_bad_modes.
 Theorem C19_tensor_ttv_rejects_both : forall s vlens d e, guard_tensor_ttv s vlens (Some d) (Some e) = Err.
 Proof. exact tensor_ttv_rejects_both. Qed.
 Print Assumptions C19_tensor_ttv_rejects_both.
@@ -150,7 +153,7 @@ Theorem C19_tensor_ttv_rejects_exclude_range : forall s vlens e x,
   In x e -> ~ (0 <= x < ndim s) -> guard_tensor_ttv s vlens None (Some e) = Err.
 Proof. exact tensor_ttv_rejects_exclude_range. Qed.
 Print Assumptions C19_tensor_ttv_rejects_exclude_range.
-Theorem C19_tensor_ttv_rejects_count : forall s vlens d, (forall x, In x d -> 0 <= x) ->
+Theorem C19_tensor_ttv_rejects_count : forall s vlens d, (forall x, In x d -> 0 <= x < ndim s) -> NoDup d ->
   (zlen vlens > ndim s \/ (zlen vlens <> ndim s /\ zlen vlens <> zlen d)) -> guard_tensor_ttv s vlens (Some d) None = Err.
 Proof. exact tensor_ttv_rejects_count. Qed.
 Print Assumptions C19_tensor_ttv_rejects_count.
@@ -160,14 +163,14 @@ Print Assumptions C19_tensor_ttm_rejects_both.
 Theorem C19_tensor_ttm_rejects_negative : forall s ms d x tr, In x d -> x < 0 -> guard_tensor_ttm s ms (Some d) None tr = Err.
 Proof. exact tensor_ttm_rejects_negative. Qed.
 Print Assumptions C19_tensor_ttm_rejects_negative.
-Theorem C19_tensor_ttm_rejects_count : forall s ms d tr, (forall x, In x d -> 0 <= x) ->
+Theorem C19_tensor_ttm_rejects_count : forall s ms d tr, (forall x, In x d -> 0 <= x < ndim s) -> NoDup d ->
   (zlen ms > ndim s \/ (zlen ms <> ndim s /\ zlen ms <> zlen d)) -> guard_tensor_ttm s ms (Some d) None tr = Err.
 Proof. exact tensor_ttm_rejects_count. Qed.
 Print Assumptions C19_tensor_ttm_rejects_count.
 Example C19_tensor_ttv_ex : guard_tensor_ttv [2; 3; 4] [4; 2] (Some [2; 0]) None = Ok tt /\ guard_tensor_ttv [2; 3; 4] [2; 4] (Some [2; 0]) None = Err.
 Proof. split; reflexivity. Qed.
 
-(* tt_dimscheck has no upper bound on dims; ttv still rejects them (Python's index check on self.shape[dims[i]]) *)
+(* modes beyond the order of the tensor *)
 Theorem C19_tensor_ttv_rejects_out_of_range : forall s vlens d x,
   In x d -> ndim s <= x -> guard_tensor_ttv s vlens (Some d) None = Err.
 Proof. exact tensor_ttv_rejects_out_of_range. Qed.
